@@ -10,12 +10,14 @@
 (* C16 is the listed property judged here (the tracker under real traffic);   *)
 (* NC / SYS are deviations from the specification that the encoder and        *)
 (* decoder checks judge against their own properties.                         *)
-EXTENDS Encoder, Status, TLC, Json, IOUtils
+(*   sys.tecmp    a TECMP status message into the same decoder: converted by   *)
+(*                Tecmp!TecmpDecode, reassembly table untouched, the converted *)
+(*                packets update the tracker like any other                    *)
+EXTENDS Encoder, Status, Tecmp, TLC, Json, IOUtils
 
 Log == ndJsonDeserialize(IOEnv.TRACE)
 
-NoTecmp(b) == << >>
-D == INSTANCE Decoder WITH TecmpDecode <- NoTecmp
+D == INSTANCE Decoder WITH TecmpDecode <- TecmpDecode
 
 VARIABLES l, ep, live, s, slots, cnt
 vars == << l, ep, live, s, slots, cnt >>
@@ -27,7 +29,7 @@ SetFn(f, d, v) == [x \in DOMAIN f \cup {d} |-> IF x = d THEN v ELSE f[x]]
 (* specification state: counters and link queues per device, reassembly table, the tracker of the specification's run *)
 (* (smap) and the tracker that follows the packets the real decoder delivered (omap)                                  *)
 S0 == [seq |-> EmptyFn, q |-> EmptyFn, pend |-> D!EmptyPending, smap |-> EmptyMap, omap |-> EmptyMap]
-Cnt0 == [ops |-> 0, emits |-> 0, frames |-> 0, delivers |-> 0, losses |-> 0, packets |-> 0, tracker_changes |-> 0, removals |-> 0]
+Cnt0 == [ops |-> 0, emits |-> 0, frames |-> 0, delivers |-> 0, losses |-> 0, packets |-> 0, tracker_changes |-> 0, removals |-> 0, tecmp_messages |-> 0]
 Init == l = 1 /\ ep = "" /\ live = FALSE /\ s = S0 /\ slots = << >> /\ cnt = Cnt0
 
 Has(r, f) == f \in DOMAIN r
@@ -70,7 +72,15 @@ After(e) ==
                                  !.omap = FoldUpd(@, e.out, 1)],
                 f  |-> IF ~same \/ bad \/ e.have # (qd # << >>) \/ (e.have /\ e.frame # qd[1]) THEN {"NC"} ELSE {}]
 
-Ops == {"st.new", "st.restore", "st.removeDev", "sys.emit", "sys.lose", "sys.deliver"}
+      [] e.e = "sys.tecmp" ->
+            LET r  == D!Decode(s.pend, e.frame)
+                same == /\ Len(r.out) = Len(e.out)
+                        /\ \A k \in 1..Len(r.out) : PD(r.out[k]) = PD(e.out[k])
+                bad == \E k \in 1..Len(e.out) : ~Usable(e.out[k])
+            IN [s2 |-> [s EXCEPT !.pend = r.pend, !.smap = FoldUpd(@, r.out, 1), !.omap = FoldUpd(@, e.out, 1)],
+                f  |-> IF ~same \/ bad \/ r.pend # s.pend THEN {"NC"} ELSE {}]
+
+Ops == {"st.new", "st.restore", "st.removeDev", "sys.emit", "sys.lose", "sys.deliver", "sys.tecmp"}
 
 Step ==
     /\ l <= Len(Log)
@@ -98,8 +108,9 @@ Step ==
                                     !.frames = @ + (IF e.e = "sys.emit" THEN Len(e.frames) ELSE 0),
                                     !.delivers = @ + (IF e.e = "sys.deliver" THEN 1 ELSE 0),
                                     !.losses = @ + (IF e.e = "sys.lose" THEN 1 ELSE 0),
-                                    !.packets = @ + (IF e.e = "sys.deliver" THEN Len(e.out) ELSE 0),
-                                    !.tracker_changes = @ + (IF e.e = "sys.deliver" /\ a.s2.omap # s.omap THEN 1 ELSE 0),
+                                    !.packets = @ + (IF e.e \in {"sys.deliver", "sys.tecmp"} THEN Len(e.out) ELSE 0),
+                                    !.tecmp_messages = @ + (IF e.e = "sys.tecmp" THEN 1 ELSE 0),
+                                    !.tracker_changes = @ + (IF e.e \in {"sys.deliver", "sys.tecmp"} /\ a.s2.omap # s.omap THEN 1 ELSE 0),
                                     !.removals = @ + (IF e.e = "st.removeDev" THEN 1 ELSE 0)]
               /\ UNCHANGED << ep, live >>
          [] OTHER -> Report({"UNKNOWN-EVENT"}) /\ UNCHANGED << ep, live, s, slots, cnt >>
